@@ -154,4 +154,40 @@ def main(tier):
                  sample='%s returns %s' % (sym, sorted(map(str, kinds))))
     provenance.check_undef(rep, {'mem_zero'}, 'MEM', 4)
     provenance.check_kwidth(rep, {'mem_zero'}, 'MEM', 4)
+    check_noload(rep)
     return rep.finish()
+
+
+def check_noload(rep):
+    """a zero-detect kernel cannot answer for a non-empty buffer without reading it: on the sub-graph of the CFG that avoids every load
+    from the buffer, the facts the taken branches establish about len (BOUNDS: lower/upper bound, congruence) must leave len == 0 as the only
+    possibility at every return"""
+    import bounds
+    R = rep.rule('M-NOLOAD-ZERO', 'mem_zero_detect kernels: every return reachable from the entry without executing a load from the buffer is reachable only when len == 0 '
+                 '(abstract interpretation of the branch conditions on len along the load-free paths: interval and congruence of len at the return admit no value >= 1)', floor=4, unit='kernels')
+    res, _ = provenance.analyse('default')
+    for sym, info in sorted(res.items()):
+        if info['fam']['family'] != 'mem_zero':
+            continue
+        R.instance()
+        u, f = info['unit'], info['func']
+        loads = {a.insn.addr for a in info['accesses'] if a.kind in ('load', 'rmw') and base_tag(a.addr) == 'BUF'}
+        if not loads:
+            raise AnalysisBroken('%s: no load from the buffer recognised' % sym)
+        bd = bounds.Bounds(u, f, info['flow'], 'rsi', cut=loads)
+        bd.run()
+        nret = 0
+        for a in f.addrs:
+            if u.insns[a].mn != 'ret' or a not in bd.IN:
+                continue
+            nret += 1
+            st = bd.IN[a]
+            lo = max(st.nlo or 0, 1)
+            m, r = st.nmod
+            w = lo + ((r - lo) % m if m > 1 else 0)       # smallest len >= 1 with the known residue
+            bad = st.nhi is None or w <= st.nhi
+            R.check(not bad, '%s: %s' % (u.name, u.where(u.insns[a], f)), 'this return is reachable without reading a single byte of the buffer for len = %d (known on these paths: %s <= len <= %s, len = %d mod %d): '
+                    'the result cannot depend on the contents' % (w, st.nlo, 'unbounded' if st.nhi is None else st.nhi, r, m), key='M-NOLOAD-ZERO|%s|%#x' % (sym, a - f.entry),
+                    sample='%s: load-free return only for len == 0 (len <= %s, len = %d mod %d)' % (sym, st.nhi, r, m))
+        if nret == 0:
+            R.ok(1, sample='%s: no return is reachable without a load from the buffer' % sym)
